@@ -155,6 +155,9 @@ def sock_cases(tier):
                 step = 1 if tier != 'quick' else 3
                 for k in range(1, len(raw), step):
                     out.append((tuple(pre), bl, eol, raw, k))
+                # the same cut with one receive call answered EAGAIN in between (nothing is lost, the rest follows)
+                for k in range(1, len(raw), step * 2):
+                    out.append((tuple(pre), bl, eol, raw, ('again', k)))
     # volume: many header lines before the banner (long legal notices, tarpits), total sizes on both sides of the read-chunk multiples and of
     # 16 KiB / 32 KiB / 64 KiB, delivered whole, in MSS-sized and odd segments, and with the final cut inside the banner line
     bl = 'SSH-2.0-OpenSSH_8.9p1 Ubuntu-3ubuntu0.10'
@@ -181,6 +184,8 @@ def work_sock(chunk, st):
             split = None
         if isinstance(split, tuple) and split[0] == 'seg':
             chunks = [raw[i:i + split[1]] for i in range(0, len(raw), split[1])]
+        elif isinstance(split, tuple) and split[0] == 'again':
+            chunks = [raw[:split[1]], 'AGAIN', raw[split[1]:]]
         elif isinstance(split, tuple) and split[0] == 'cut':         # everything up to k bytes into the banner line, then the rest
             k = raw.rindex(b'SSH-2.0-') + split[1]
             chunks = [raw[:k], raw[k:]]
@@ -197,7 +202,7 @@ def work_sock(chunk, st):
         lines = [RB.decode_line(x) for x in raw.replace(b'\r\n', b'\n').split(b'\n')[:-1]]
         want, wheader = RB.scan(lines)
         st.execution(w, outcome=('sock', b is not None, len(header), abort), root=('sock', pre, bl, eol, split, abort), nontrivial=('sock', pre, bl, eol, split, abort))
-        tag = 'send-fails' if abort else 'volume' if isinstance(split, tuple) or len(raw) > 2000 else 'split' if split is not None else 'whole'
+        tag = 'send-fails' if abort else 'retry-between-segments' if isinstance(split, tuple) and split[0] == 'again' else 'volume' if isinstance(split, tuple) or len(raw) > 2000 else 'split' if split is not None else 'whole'
         if b is None:
             st.violation('socket:%s:banner-not-found' % tag, {'pre': pre, 'banner': bl, 'eol': eol, 'split': split, 'err': err, 'header': header})
             continue
